@@ -472,7 +472,7 @@ def Inv0 (c : Ctx) : Prop := c.standpointId = [] ∧ c.idim = 0 ∧ c.covData = 
 def InCluster (inh : List Char) (n : Nat) (c : Ctx) : Prop :=
   c.standpointId = inh ∧ c.idim = 0 ∧ c.covData = [] ∧ c.nobs = n
 
-def ClusterKind.handler : ClusterKind → Handler
+def ClusterKind.openHandler : ClusterKind → Handler
   | .obs => .obs_ | .hdiffs => .hdiffs_ | .coords => .coords_ | .vectors => .vectors_
 def ClusterKind.covHandler : ClusterKind → Handler
   | .obs => .obs_cov_ | .hdiffs => .hdiffs_cov_ | .coords => .coords_cov_ | .vectors => .vectors_cov_
@@ -483,14 +483,14 @@ def ClusterKind.finish : ClusterKind → Finish
     (count 0; `<obs>` also sets the standpoint and clears the dimension), `<cov-mat>` sets dimension and bandwidth from
     `dim` / `band`, both closing tags of the cluster call the same `finish_*`, which checks `dim` against the count -/
 def clusterCtxOk (k : ClusterKind) : Bool :=
-  start .point_obs k.tag == .run k.handler && valueHandler k.handler == k.handler && attrLoop k.handler != .none &&
-  effects k.handler == ⟨if k == .obs then some "ss" else none, k == .obs, true, 0, 0, 0, none⟩ &&
+  start .point_obs k.tag == .run k.openHandler && valueHandler k.openHandler == k.openHandler && attrLoop k.openHandler != .none &&
+  effects k.openHandler == ⟨if k == .obs then some "ss" else none, k == .obs, true, 0, 0, 0, none⟩ &&
   start k.state .cov_mat == .run k.covHandler && valueHandler k.covHandler == .cov_ &&
   plainEff (effects k.covHandler) && effSum k.covHandler == (0, 0, 0) &&
   effects .cov_ == ⟨none, false, false, 0, 0, 0, some ("sdim", "sband")⟩ && attrLoop .cov_ == .all &&
   plain .cov_ "dim" "sdim" && plain .cov_ "band" "sband" && plain .obs_ "from" "ss" && attrLoop .obs_ == .all &&
   (attrNames .cov_).all (fun a => bindVar .cov_ a != some "pp_id") &&
-  (attrNames k.handler).all (fun a => bindVar k.handler a != some "pp_id") &&
+  (attrNames k.openHandler).all (fun a => bindVar k.openHandler a != some "pp_id") &&
   (attrNames k.covHandler).all (fun a => bindVar k.covHandler a != some "pp_id") &&
   stop k.covState == .goto k.afterCov none && covTextState k.covState &&
   stop k.afterCov == .goto .point_obs (some k.finish) && stop k.state == .goto .point_obs (some k.finish) &&
@@ -570,20 +570,20 @@ theorem applyEff_fields (ctx : Ctx) (g : Handler) (xs as : List CAttr) (e : Effe
   cases sp <;> cases rd <;> cases nc <;> cases cov <;> simp only [applyEff] <;> split <;> simp
 
 theorem cluster_start_ctx (k : ClusterKind) (ctx : Ctx) (as : List CAttr)
-    (hdoc : ∀ a ∈ as, a.name ∈ docNames k.handler) (h0 : Inv0 ctx) :
-    InCluster (if k == .obs then attrStr as "from" else []) 0 (startCtx ctx k.handler as) := by
-  have hv : valueHandler k.handler = k.handler := by cases k <;> decide
+    (hdoc : ∀ a ∈ as, a.name ∈ docNames k.openHandler) (h0 : Inv0 ctx) :
+    InCluster (if k == .obs then attrStr as "from" else []) 0 (startCtx ctx k.openHandler as) := by
+  have hv : valueHandler k.openHandler = k.openHandler := by cases k <;> decide
   unfold startCtx
   simp only [hv, beq_self_eq_true, if_true]
-  have F := applyEff_fields ctx k.handler (examined k.handler as) as (effects k.handler)
+  have F := applyEff_fields ctx k.openHandler (examined k.openHandler as) as (effects k.openHandler)
   cases k
   · have hex : examined .obs_ as = as := by simp [examined, attrLoop]
-    simp only [ClusterKind.handler, effects, hex] at F ⊢
+    simp only [ClusterKind.openHandler, effects, hex] at F ⊢
     refine ⟨?_, by simpa using F.2.1, by rw [F.2.2.2.1]; exact h0.2.2, by simpa using F.2.2.2.2⟩
     rw [F.1]
     exact env_plain ctx .obs_ as "from" "ss" hdoc (by decide)
   all_goals
-    simp only [ClusterKind.handler, effects] at F ⊢
+    simp only [ClusterKind.openHandler, effects] at F ⊢
     exact ⟨by rw [F.1]; exact h0.1, by rw [F.2.1]; simpa using h0.2.1, by rw [F.2.2.2.1]; exact h0.2.2,
       by simpa using F.2.2.2.2⟩
 
@@ -667,17 +667,17 @@ theorem cluster_seg (c : Cluster') (cs : CSt) (hc : Clean cs.st .point_obs) (h0 
   obtain ⟨⟨hx_attrs, hx_items⟩, hx_cov⟩ := hvals
   simp only [Cluster.valid, Cluster'.abs, Bool.and_eq_true] at hshape
   obtain ⟨⟨⟨_, hs_items⟩, _⟩, hs_kind⟩ := hshape
-  have hstart : start .point_obs c.kind.tag = .run c.kind.handler := by cases c.kind <;> rfl
+  have hstart : start .point_obs c.kind.tag = .run c.kind.openHandler := by cases c.kind <;> rfl
   have hinh : c.kind ≠ .obs → c.inh = [] := by
     intro hk
     have : (c.kind == ClusterKind.obs) = false := by simpa using hk
     simp [Cluster'.inh, this]
   unfold Cluster'.events
-  have e1 := start_event_ok cs .point_obs c.kind.state c.kind.tag c.attrs c.kind.handler hc hstart h_open
+  have e1 := start_event_ok cs .point_obs c.kind.state c.kind.tag c.attrs c.kind.openHandler hc hstart h_open
     (by intro hn; exfalso; revert hn; cases c.kind <;> decide) hx_attrs (by rw [h0.1]; exact hv_attrs)
-  have hdocnames : ∀ a ∈ c.attrs, a.name ∈ docNames c.kind.handler := by
+  have hdocnames : ∀ a ∈ c.attrs, a.name ∈ docNames c.kind.openHandler := by
     have := names_of_attrsDocOk c.kind.tag c.attrs hx_attrs
-    have hh : tagHandler c.kind.tag = c.kind.handler := by cases c.kind <;> rfl
+    have hh : tagHandler c.kind.tag = c.kind.openHandler := by cases c.kind <;> rfl
     rwa [hh] at this
   refine Seg.cons (P := InCluster c.inh 0) ⟨e1.1, e1.2.1, ?_⟩ ?_
   · rw [e1.2.2]; exact cluster_start_ctx c.kind cs.ctx c.attrs hdocnames h0
